@@ -22,6 +22,7 @@
 -/
 import Mhd.Proofs.DauthNoPanic
 import Mhd.Proofs.DauthEx
+import Mhd.Proofs.DauthAlloc
 import Mhd.Props.C16
 
 namespace Mhd.C12
@@ -404,5 +405,111 @@ example (c : Mhd.Hash.Ctx (Mhd.Hash.R4 UInt32)) (hc : c.buffer.length = 64) (u r
 
 /-- `MHD_bin_to_hex` and `MHD_hex_to_bin` are inverse (the response is compared after decoding: either letter case) -/
 theorem hex_roundtrip (b : (List UInt8)) (h : b ≠ []) : hexToBin (binToHex b) = some b := hexToBin_binToHex b h
+
+/-! ## 8. Allocation failure (`malloc` inside `get_buffer_for_size`)
+
+`checkInnerA fails …` / `digestCheckA fails …` / `legacyCheckA fails …` (`Mhd.Model.DauthAlloc`) are the same
+functions with the outcome of `malloc` as an explicit input: `fails = true` = every `malloc` during the check
+returns NULL.  A buffer is requested for every value with quoted pairs (`get_unquoted_param`), for `uri` always
+(`get_unquoted_param_copy`, one byte more) and for the user name in extended notation; up to 128 bytes the
+stack buffer `tmp1` is used, above it `malloc`.  `needsHeap d` = one of the requests on the accepting path
+exceeds 128 bytes. -/
+
+/-- `malloc` succeeds: the model of §1–§7 (every theorem above is about this case) -/
+theorem alloc_success_is_model (cfg : Cfg) (tbl : Mhd.Nonce.Table) (now : Nat) (r : Req) (call : Call) (timeout maxNc : Nat)
+    (p : Option DAuth) (realm username : List UInt8) (secret : Secret) (nonceTimeout algo : Nat) :
+    checkInnerA false cfg tbl now r call timeout maxNc p = checkInner cfg tbl now r call timeout maxNc p ∧
+    digestCheckA false cfg tbl now r call = digestCheck cfg tbl now r call ∧
+    legacyCheckA false cfg tbl now r realm username secret nonceTimeout algo =
+      legacyCheck cfg tbl now r realm username secret nonceTimeout algo :=
+  ⟨checkInnerA_false _ _ _ _ _ _ _ _, digestCheckA_false _ _ _ _ _, legacyCheckA_false _ _ _ _ _ _ _ _ _⟩
+
+example : checkInnerA false Ex.cfg Ex.tbl 6000 ExA.req Ex.call 90 1000 (some ExA.d) =
+    checkInner Ex.cfg Ex.tbl 6000 ExA.req Ex.call 90 1000 (some ExA.d) :=
+  (alloc_success_is_model _ _ _ _ _ _ _ _ [] [] (.password []) 0 0).1
+
+/-- `malloc` fails, ALL inputs (any parameters, parsed or not, valid or not): the check answers exactly as when
+    `malloc` succeeds, or it answers `MHD_DAUTH_ERROR` — before `check_nonce_nc` with the nonce table untouched,
+    or after it with the table of the succeeding run (the nonce count is then spent, as for a wrong response). -/
+theorem alloc_failure_cases (cfg : Cfg) (tbl : Mhd.Nonce.Table) (now : Nat) (r : Req) (call : Call) (timeout maxNc : Nat)
+    (p : Option DAuth) :
+    checkInnerA true cfg tbl now r call timeout maxNc p = checkInner cfg tbl now r call timeout maxNc p
+    ∨ checkInnerA true cfg tbl now r call timeout maxNc p = (tbl, .error)
+    ∨ checkInnerA true cfg tbl now r call timeout maxNc p = ((checkInner cfg tbl now r call timeout maxNc p).1, .error) :=
+  checkInnerA_true_cases cfg tbl now r call timeout maxNc p
+
+set_option maxRecDepth 100000 in
+/-- the stage that first asks for more than 128 bytes stops with `MHD_DAUTH_ERROR` (here: `uri` of 130 bytes sent
+    as a token, and a quoted `cnonce` of 200 bytes), where the succeeding run goes on -/
+example : stageUri Ex.cfg ExA.req ExB.dUri = .ok ExA.path ∧ stageUriA true Ex.cfg ExA.req ExB.dUri = .error .error :=
+  ⟨rfl, rfl⟩
+set_option maxRecDepth 100000 in
+example : qopPart ExB.dCn = .ok ([49] ++ 58 :: (List.replicate 199 99 ++ 58 :: [49, 58])) ∧
+    qopPartA true ExB.dCn = .error .error := ⟨rfl, rfl⟩
+
+/-- the public functions: same class, or `MHD_DAUTH_ERROR` / `MHD_NO`; in particular never `MHD_DAUTH_OK` /
+    `MHD_YES` unless the succeeding run says so -/
+theorem alloc_failure_class (cfg : Cfg) (tbl : Mhd.Nonce.Table) (now : Nat) (r : Req) (call : Call)
+    (realm username : List UInt8) (secret : Secret) (nonceTimeout algo : Nat) :
+    ((digestCheckA true cfg tbl now r call).2 = (digestCheck cfg tbl now r call).2
+      ∨ (digestCheckA true cfg tbl now r call).2 = .error) ∧
+    ((legacyCheckA true cfg tbl now r realm username secret nonceTimeout algo).2 =
+        (legacyCheck cfg tbl now r realm username secret nonceTimeout algo).2
+      ∨ (legacyCheckA true cfg tbl now r realm username secret nonceTimeout algo).2 = .no) :=
+  ⟨digestCheckA_true_class _ _ _ _ _, legacyCheckA_true_class _ _ _ _ _ _ _ _ _⟩
+
+theorem alloc_failure_never_ok_unless (cfg : Cfg) (tbl : Mhd.Nonce.Table) (now : Nat) (r : Req) (call : Call)
+    (h : (digestCheckA true cfg tbl now r call).2 = .ok) : (digestCheck cfg tbl now r call).2 = .ok := by
+  rcases (alloc_failure_class cfg tbl now r call [] [] (.password []) 0 0).1 with e | e
+  · rw [← e]; exact h
+  · rw [e] at h; cases h
+
+/-- the table: untouched, or the table of the succeeding run -/
+theorem alloc_failure_table (cfg : Cfg) (tbl : Mhd.Nonce.Table) (now : Nat) (r : Req) (call : Call) (timeout maxNc : Nat)
+    (p : Option DAuth) :
+    (checkInnerA true cfg tbl now r call timeout maxNc p).1 = tbl
+    ∨ (checkInnerA true cfg tbl now r call timeout maxNc p).1 = (checkInner cfg tbl now r call timeout maxNc p).1 :=
+  checkInnerA_true_table cfg tbl now r call timeout maxNc p
+
+/-- `malloc` fails: `MHD_DAUTH_OK` iff the succeeding run answers `MHD_DAUTH_OK` (§2: iff RFC-valid) and no
+    request exceeds the stack buffer.  A credential that needs the heap is never accepted. -/
+theorem alloc_failure_ok_iff (cfg : Cfg) (tbl : Mhd.Nonce.Table) (now : Nat) (r : Req) (call : Call) (timeout maxNc : Nat)
+    (d : DAuth) :
+    (checkInnerA true cfg tbl now r call timeout maxNc (some d)).2 = .ok ↔
+      ((checkInner cfg tbl now r call timeout maxNc (some d)).2 = .ok ∧ needsHeap d = false) :=
+  checkInnerA_true_ok_iff cfg tbl now r call timeout maxNc d
+
+/-- an accepted credential that needs the heap is answered `MHD_DAUTH_ERROR` when `malloc` fails -/
+theorem alloc_failure_needs_heap_error (cfg : Cfg) (tbl : Mhd.Nonce.Table) (now : Nat) (r : Req) (call : Call)
+    (timeout maxNc : Nat) (d : DAuth) (hok : (checkInner cfg tbl now r call timeout maxNc (some d)).2 = .ok)
+    (hn : needsHeap d = true) : (checkInnerA true cfg tbl now r call timeout maxNc (some d)).2 = .error :=
+  needsHeap_error cfg tbl now r call timeout maxNc d hok hn
+
+/-- non-vacuity: the valid credential of §2 for a request path of 130 bytes (`uri` copy of 131 bytes) is accepted
+    when `malloc` succeeds, needs the heap, and is answered `MHD_DAUTH_ERROR` when `malloc` fails -/
+example : (checkInner Ex.cfg Ex.tbl 6000 ExA.req Ex.call 90 1000 (some ExA.d)).2 = .ok ∧ needsHeap ExA.d = true ∧
+    (checkInnerA true Ex.cfg Ex.tbl 6000 ExA.req Ex.call 90 1000 (some ExA.d)).2 = .error :=
+  ⟨ExA.accepted, ExA.needs, alloc_failure_needs_heap_error _ _ _ _ _ _ _ _ ExA.accepted ExA.needs⟩
+
+/-- when no request exceeds 128 bytes `malloc` is not called: its outcome does not matter, for any credential -/
+theorem alloc_irrelevant_when_small (fails : Bool) (cfg : Cfg) (tbl : Mhd.Nonce.Table) (now : Nat) (r : Req) (call : Call)
+    (timeout maxNc : Nat) (d : DAuth) (hn : needsHeap d = false) :
+    checkInnerA fails cfg tbl now r call timeout maxNc (some d) = checkInner cfg tbl now r call timeout maxNc (some d) :=
+  checkInnerA_small fails cfg tbl now r call timeout maxNc d hn
+
+set_option maxRecDepth 100000 in
+example : needsHeap { ExA.d with slots := fun k => if k = kUri then some ⟨0, Ex.uri, false⟩ else ExA.d.slots k } = false := by
+  decide
+
+/-- §5 whatever `malloc` does: no write beyond `hash1_bin[MAX_DIGEST]` nor `tmp1[128]` -/
+theorem no_buffer_overflow_alloc (fails : Bool) (cfg : Cfg) (tbl : Mhd.Nonce.Table) (now : Nat) (r : Req) (call : Call)
+    (timeout maxNc : Nat) (p : Option DAuth) :
+    (checkInnerA fails cfg tbl now r call timeout maxNc p).2 ≠ .fault .hash1Overflow ∧
+    (checkInnerA fails cfg tbl now r call timeout maxNc p).2 ≠ .fault .tmp1Overflow := by
+  have h := checkInnerA_no_overflow fails cfg tbl now r call timeout maxNc p
+  exact ⟨fun e => h (Or.inl e), fun e => h (Or.inr e)⟩
+
+example : (checkInnerA true Ex.cfg Ex.tbl 6000 ExA.req Ex.call 90 1000 (some ExA.d)).2 ≠ .fault .tmp1Overflow :=
+  (no_buffer_overflow_alloc true _ _ _ _ _ _ _ _).2
 
 end Mhd.C12
